@@ -347,6 +347,7 @@ func init() {
 			}
 			g.do("setdecor " + w + " " + showDecor(d))
 			g.do("render " + w)
+			g.do("render " + w) // again: the wrapper's decoration is not completed behind the caller's back
 			g.do("obs " + t)
 			return nil, nil, true
 		},
